@@ -684,13 +684,18 @@ def gen_core(rng, nmax=7, acyclic=True) -> dict:
         if r < .55:
             nd = obj(tg)
         elif r < .8 and tg:
-            nd = ["allof", [["ref", rng.choice(tg)] for _ in range(rng.randint(1, 2))] + ([obj(tg)] if rng.random() < .8 else [])]
-        elif r < .88:
+            nd = ["allof", [["ref", rng.choice(tg)] for _ in range(rng.randint(1, 2))] + ([obj(tg)] if rng.random() < .8 else [])
+                  + ([["prim", "string"]] if rng.random() < .1 else [])]
+        elif r < .85:
             nd = ["enum"]
-        elif r < .94:
+        elif r < .89:
             nd = ["prim", rng.choice(PRIMS)]
-        else:
+        elif r < .93:
             nd = ["arr", item(tg)]
+        elif r < .96:
+            nd = ["map", item(tg)]
+        else:
+            nd = [rng.choice(["oneof", "anyof"]), [item(tg) for _ in range(rng.randint(1, 3))]]
         out.append([nm, nd])
     rng.shuffle(out)
     return {"schemas": out}
@@ -1053,8 +1058,9 @@ def in_theorem_fragment(inp: dict) -> bool:
         return x[0] == "obj" and all(prop(b) for _, b in x[1])
 
     def top(x):
-        return (obj(x) or (x[0] == "allof" and all(m[0] in ("ref", "bare") or obj(m) for m in x[1]))
-                or x[0] in ("prim", "enum") or (x[0] == "arr" and item(x[1])))
+        return (obj(x) or (x[0] == "allof" and all(m[0] in ("ref", "bare", "prim", "enum") or obj(m) for m in x[1]))
+                or x[0] in ("prim", "enum") or (x[0] in ("arr", "map") and item(x[1]))
+                or (x[0] in ("oneof", "anyof") and all(item(m) for m in x[1])))
     names, keys = all_names(inp["schemas"])
     if not all(top(nd) for nd in spec.values()) or keys & set(spec) or not names <= set(spec):
         return False
